@@ -51,7 +51,7 @@ ReqId(who, h) == who \o "@" \o ToString(h)
 CtxId(n) == "c" \o ToString(n)
 
 NoEv == [name |-> "Init", who |-> "", n |-> 0, oracle |-> FALSE, cap |-> 0, ctx |-> "",
-         kind |-> "", seed |-> 0, dt |-> 0, prov |-> "", rank |-> 0, txh |-> "",
+         kind |-> "", pay |-> "", seed |-> 0, dt |-> 0, prov |-> "", rank |-> 0, txh |-> "",
          ok |-> TRUE, panic |-> FALSE, halt |-> FALSE, gen |-> EmptyF]
 
 -----------------------------------------------------------------------------
@@ -59,6 +59,8 @@ FailW(s, w) == [ok |-> FALSE, panic |-> FALSE, st |-> s, why |-> w]
 Done(s) == [ok |-> TRUE, panic |-> FALSE, st |-> s, why |-> ""]
 
 Coin(a) == (D :> a)
+CapPays == {"btccap", "twocap"}     \* a fee cap named in another denomination / in two
+FarMax == 1073741824                \* the logged image of MaxInt64 (see DoRequestRandom)
 
 (* the value the generator produced: observed on traces, symbolic in the model *)
 GenValue(e, id, h) ==
@@ -92,10 +94,16 @@ DoRequestRandom(s, e) ==
   \* the request was queued under the past height s.h + e.n for good.
   IF e.cap < 0 THEN FailW(s, "invalid")
   ELSE IF e.n < 0 THEN FailW(s, "interval")              \* sdkerrors.ErrInvalidRequest
+  \* heights next to MaxInt64 are logged minus MaxInt64 - 2^30 (additively, intervals
+  \* too): the largest accepted interval is the one that is due at FarMax = MaxInt64
+  ELSE IF s.h + e.n > FarMax THEN FailW(s, "interval")
+  \* (a block-hash request carries no fee cap: whatever the message names is ignored)
   ELSE IF ~e.oracle THEN Done(Enqueue(s, s.h + e.n, base))
   ELSE IF DOMAIN s.bind = {} THEN FailW(s, "no_bindings")
   ELSE IF s.bal[who][D] < e.cap THEN FailW(s, "insufficient_fee")
-  ELSE IF e.cap = 0 THEN FailW(s, "fee_cap")                 \* validateServiceFeeCap
+  \* validateServiceFeeCap: exactly one coin, of the base denom (pay: the cap is named
+  \* in another denomination / in two; without such coins SpendableCoins refuses first)
+  ELSE IF e.cap = 0 \/ e.pay \in CapPays THEN FailW(s, "fee_cap")
   ELSE
     LET prov == IF e.prov \in DOMAIN s.bind THEN e.prov ELSE CHOOSE p \in DOMAIN s.bind : TRUE
         cid == CtxId(s.nctx + 1)
@@ -112,11 +120,38 @@ DoRequestRandom(s, e) ==
 (***************************************************************************)
 DropOracle(s, c) == [s EXCEPT !.opend = Del(s.opend, c)]
 
+(***************************************************************************)
+(* Answers (round 7: unusual payloads).  e.kind says what the code makes   *)
+(* of an answer, e.pay how it is written down (harness payload.go):        *)
+(*   seed    well-formed body, the seed is 32 bytes of hexadecimal digits  *)
+(*           (either case; of duplicate members the FIRST is used)         *)
+(*   bad     the body fails the random service's output schema (which,     *)
+(*           reading it with a JSON decoder, sees the LAST of duplicate    *)
+(*           members): HandlerResponse returns, the waiting request stays  *)
+(*   badhex  the schema passes on the last "seed" member while the first   *)
+(*           one — which gjson reads — is not hexadecimal: "invalid seed", *)
+(*           the waiting request is dropped without a result               *)
+(*   short   ... the first one is hexadecimal but not 32 bytes:            *)
+(*           hex.DecodeString returns no error, the handler logs           *)
+(*           err.Error() of a nil error and the transaction panics         *)
+(*   err     an error result without output                                *)
+(* MsgRespondService.ValidateBasic refuses a result 200 without output, an *)
+(* error result with one, a result code outside the schema, an output      *)
+(* without header, a request id of the wrong length.                       *)
+(***************************************************************************)
+OutKinds == {"seed", "bad", "badhex", "short"}
+RefusedAnswer(e) ==
+  \/ e.pay = "ridshort"
+  \/ e.kind \in OutKinds /\ e.pay \in {"emptyout", "badresult", "nohdr"}
+  \/ e.kind \notin OutKinds /\ e.pay = "errout"
+
 OnResponse(s, e, c, outs, err) ==
   IF Len(outs) = 0 \/ err THEN DropOracle(s, c)
   ELSE IF c \notin DOMAIN s.ctx THEN DropOracle(s, c)
   ELSE IF c \notin DOMAIN s.opend THEN s
-  ELSE IF outs[1].kind # "seed" THEN s        \* invalid body: returns, the entry stays
+  ELSE IF outs[1].kind = "bad" THEN s         \* invalid body: returns, the entry stays
+  ELSE IF outs[1].kind = "badhex" THEN DropOracle(s, c)     \* "invalid seed"
+  ELSE IF outs[1].kind = "short" THEN s       \* (panics: DoRespond)
   ELSE
     LET rq == s.opend[c] IN
     DropOracle([s EXCEPT !.results = Put(s.results, rq.id,
@@ -126,7 +161,7 @@ OnStateChanged(s, c) == IF c \in DOMAIN s.ctx THEN DropOracle(s, c) ELSE s
 
 (* service: Callback — outputs of the current batch in request (provider index) order *)
 Outputs(cx) ==
-  LET ps == SelectSeq(cx.provs, LAMBDA p : p \in DOMAIN cx.reqs /\ cx.reqs[p].kind \in {"seed", "bad"})
+  LET ps == SelectSeq(cx.provs, LAMBDA p : p \in DOMAIN cx.reqs /\ cx.reqs[p].kind \in OutKinds)
   IN [i \in DOMAIN ps |-> [kind |-> cx.reqs[ps[i]].kind, x |-> cx.reqs[ps[i]].x]]
 
 Callback(s, e, c) ==
@@ -140,7 +175,8 @@ Callback(s, e, c) ==
 DoRespond(s, e) ==
   LET who == e.who
       c == e.ctx IN
-  IF c \notin DOMAIN s.ctx \/ DOMAIN s.ctx[c].reqs = {} THEN FailW(s, "unknown_request")
+  IF RefusedAnswer(e) THEN FailW(s, "invalid_response")
+  ELSE IF c \notin DOMAIN s.ctx \/ DOMAIN s.ctx[c].reqs = {} THEN FailW(s, "unknown_request")
   ELSE
     LET cx == s.ctx[c] IN
     IF who \notin DOMAIN cx.reqs THEN FailW(s, "wrong_provider")
@@ -148,7 +184,7 @@ DoRespond(s, e) ==
     ELSE
       LET fee == cx.reqs[who].fee
           tax == (fee * s.params.taxNum) \div s.params.taxDen
-          kind == IF e.kind \in {"seed", "bad"} THEN e.kind ELSE "err"
+          kind == IF e.kind \in OutKinds THEN e.kind ELSE "err"
           x == IF kind = "seed" THEN e.seed ELSE 0
           cx1 == [cx EXCEPT !.reqs[who] = [@ EXCEPT !.act = FALSE, !.kind = kind, !.x = x],
                             !.respN = @ + 1]
@@ -159,7 +195,12 @@ DoRespond(s, e) ==
                           !.ctx[c] = cx1]
           \* CompleteBatch runs the callback before the context is written back
           s2 == IF complete THEN Callback(s1, e, c) ELSE s1
-      IN Done([s2 EXCEPT !.ctx[c] = cx2])
+          outs == Outputs(cx1)
+          \* service.go HandlerResponse "invalid seed": err.Error() of a nil error
+          nilErr == /\ complete /\ Len(outs) > 0 /\ Len(outs) >= cx1.bthr /\ c \in DOMAIN s.opend
+                    /\ outs[1].kind = "short"
+      IN IF nilErr THEN [ok |-> FALSE, panic |-> TRUE, st |-> s, why |-> "nil_error"]
+         ELSE Done([s2 EXCEPT !.ctx[c] = cx2])
 
 (***************************************************************************)
 (* random/abci.go BeginBlocker at height s.h: every request queued at      *)
@@ -550,6 +591,62 @@ Rejects(h) == Cardinality({i \in DOMAIN h : ~h[i].ok})
 GenNext == Next /\ (ev'.ok \/ Rejects(hist) < 2)
 GenSpec == Init /\ [][GenNext]_vars
 GenDepth == atoi(IOEnv.GEN_DEPTH)
+(***************************************************************************)
+(* Probe generator (round 7, negative probing).  On the way: accepted      *)
+(* events only — among them seeds written down in unusual ways, malformed  *)
+(* seeds of every kind, block intervals up to the largest accepted one —   *)
+(* at most ProbeBurst messages per block; then ProbeLen events that the    *)
+(* specification REJECTS, sent in the block of the last accepted messages: *)
+(* intervals that overflow, fee caps of zero / above the balance / in the  *)
+(* wrong denomination, answers by consumers, by providers that were not    *)
+(* asked, to contexts that have not started / have answered / are gone,    *)
+(* answers ValidateBasic must refuse, the answer that makes the handler    *)
+(* panic.  The replay's epilogue runs the real chain until its queue (as   *)
+(* the chain reports it) is empty and every batch has expired.             *)
+(***************************************************************************)
+SeedPays == {"upper", "dupbody", "extra", "dupseed", "ridlower"}
+BadPays == {"short", "long", "nonhex", "num", "extraprop", "nobody", "emptybody", "duplastbad"}
+RespondPay ==
+  /\ st.inb
+  /\ \E who \in Provs, c \in DOMAIN st.ctx :
+       \/ \E pay \in SeedPays : Step([E("Respond", who, 0, FALSE, 0, c, "seed", "", 0) EXCEPT !.pay = pay])
+       \/ \E pay \in BadPays : Step([E("Respond", who, 0, FALSE, 0, c, "bad", "", 0) EXCEPT !.pay = pay])
+       \/ Step(E("Respond", who, 0, FALSE, 0, c, "badhex", "", 0))
+       \/ Step([E("Respond", who, 0, FALSE, 0, c, "err", "", 0) EXCEPT !.pay = "err400"])
+RequestFar ==
+  /\ st.inb /\ NReq < MaxReq
+  /\ \E who \in Users, k \in {0, 1, 700} : Step(E("RequestRandom", who, FarMax - st.h - k, FALSE, 0, "", "", "", 0))
+NextP == Next \/ RespondPay \/ RequestFar
+
+OddRequest ==
+  /\ st.inb
+  /\ \E who \in Users :
+       \/ \E k \in {1, 2} : Step(E("RequestRandom", who, FarMax - st.h + k, FALSE, 0, "", "", "", 0))
+       \/ \E k \in {1, 3} : Step(E("RequestRandom", who, 0 - k, FALSE, 0, "", "", "", 0))
+       \/ \E n \in Intervals, cap \in {0, Funds + 1} : Step(E("RequestRandom", who, n, TRUE, cap, "", "", "", 0))
+       \/ \E n \in Intervals, cap \in Caps, pay \in CapPays :
+            Step([E("RequestRandom", who, n, TRUE, cap, "", "", "", 0) EXCEPT !.pay = pay])
+OddRespond ==
+  /\ st.inb
+  /\ \E c \in {CtxId(i) : i \in 1..st.nctx} :
+       \/ \E who \in Users \cup Provs, kind \in {"seed", "err", "bad"} : Step(E("Respond", who, 0, FALSE, 0, c, kind, "", 0))
+       \/ \E who \in Provs, pay \in {"emptyout", "badresult", "nohdr", "ridshort"} :
+            Step([E("Respond", who, 0, FALSE, 0, c, "seed", "", 0) EXCEPT !.pay = pay])
+       \/ \E who \in Provs, pay \in {"errout", "ridshort"} :
+            Step([E("Respond", who, 0, FALSE, 0, c, "err", "", 0) EXCEPT !.pay = pay])
+       \/ \E who \in Provs : Step(E("Respond", who, 0, FALSE, 0, c, "short", "", 0))
+
+ProbeLen == 4
+ProbeBurst == 3
+InProbe == Len(hist) + ProbeLen >= GenDepth
+RECURSIVE SinceBegin(_)
+SinceBegin(h) == IF h = <<>> \/ h[Len(h)].name = "BeginBlock" THEN 0 ELSE 1 + SinceBegin(SubSeq(h, 1, Len(h) - 1))
+GenNextP ==
+  \/ (~InProbe /\ NextP /\ ev'.ok /\ (ev'.name \in {"BeginBlock", "EndBlock"} \/ SinceBegin(hist) < ProbeBurst))
+  \/ (InProbe /\ ~st.inb /\ BeginBlock)
+  \/ (InProbe /\ (OddRequest \/ OddRespond \/ RequestOracle \/ Respond) /\ ~ev'.ok)
+GenSpecP == Init /\ [][GenNextP]_vars
+
 GenConstraint ==
   /\ Len(hist) <= GenDepth
   /\ (Len(hist) = GenDepth) => PrintT(<<"BEHAVIOUR", ToJson(hist)>>)
